@@ -3,5 +3,663 @@ From Coq Require Import List NArith ZArith Bool Lia ZifyBool ZifyNat ZifyN.
 From NV Require Import Bytes GenConsts GenExCmds CapDefs.
 Import ListNotations.
 
+(* ---------------------------------------------------------------------------------------- *)
+(* checked memory                                                                            *)
+
+Lemma rd_ok s i : i <= length s -> exists c, rd s i = Ok c /\ (c <> 0%N -> i < length s).
+Proof.
+  intro H. unfold rd. destruct (nth_error s i) eqn:E.
+  - exists n. split; [reflexivity|]. intros _. apply nth_error_Some. congruence.
+  - apply nth_error_None in E. assert (i = length s) as -> by lia. rewrite Nat.eqb_refl.
+    exists 0%N. split; [reflexivity|]. intro C. congruence.
+Qed.
+
+Lemma rd_oob s i : length s < i -> rd s i = OobRd.
+Proof.
+  intro H. unfold rd. destruct (nth_error s i) eqn:E.
+  - assert (i < length s) by (apply nth_error_Some; congruence). lia.
+  - destruct (Nat.eqb_spec i (length s)); [lia|reflexivity].
+Qed.
+
+Lemma wr_ok w b : 0 < wroom w ->
+  exists w', wr w b = Ok w' /\ wroom w = S (wroom w') /\ wcap w' = wcap w /\ wlen w' = S (wlen w).
+Proof.
+  destruct w as [l r]. unfold wroom, wcap, wlen, wr. cbn [fst snd]. intro H. destruct r as [|r]; [lia|].
+  exists (b :: l, r). unfold wroom, wcap, wlen. cbn [fst snd length]. repeat split; lia.
+Qed.
+
+(* the read position moved from i to i' inside s and every byte written was paid for by a byte read *)
+Definition adv (s : bytes) (i : nat) (w : W) (i' : nat) (w' : W) : Prop :=
+  i <= i' /\ i' <= length s /\ i + wroom w <= i' + wroom w' /\ wcap w' = wcap w.
+
+Lemma adv_refl s i w : i <= length s -> adv s i w i w.
+Proof. unfold adv. lia. Qed.
+Lemma adv_trans s i w i1 w1 i2 w2 : adv s i w i1 w1 -> adv s i1 w1 i2 w2 -> adv s i w i2 w2.
+Proof. unfold adv. lia. Qed.
+
+Lemma copy1_spec s i w : i < length s -> 0 < wroom w ->
+  exists w', copy1 s i w = Ok (S i, w') /\ wroom w = S (wroom w') /\ wcap w' = wcap w.
+Proof.
+  intros Hi Hw. unfold copy1. destruct (rd_ok s i) as (c & Hc & _); [lia|]. rewrite Hc. cbn [bind].
+  destruct (wr_ok w c Hw) as (w' & E & H1 & H2 & _). rewrite E. cbn [bind]. exists w'. auto.
+Qed.
+
+Lemma esc_spec s i w : i < length s -> length s < i + wroom w ->
+  exists i' w', esc s i w = Ok (i', w') /\ i' < length s /\ adv s i w i' w'.
+Proof.
+  intros Hi Hw. unfold esc. destruct (rd_ok s i) as (c & Hc & _); [lia|]. rewrite Hc. cbn [bind].
+  destruct (c =? 92)%N.
+  - destruct (rd_ok s (S i)) as (c1 & Hc1 & Hn1); [lia|]. rewrite Hc1. cbn [bind].
+    destruct (N.eqb_spec c1 0).
+    + exists i, w. split; [reflexivity|]. unfold adv. lia.
+    + destruct (copy1_spec s i w) as (w' & E & H1 & H2); [lia..|]. rewrite E.
+      exists (S i), w'. split; [reflexivity|]. specialize (Hn1 n). unfold adv. lia.
+  - exists i, w. split; [reflexivity|]. unfold adv. lia.
+Qed.
+
+Lemma skip_while_spec pre : pre 0%N = false -> forall fuel s i, i <= length s -> length s < i + fuel ->
+  exists i', skip_while fuel pre s i = Ok i' /\ i <= i' /\ i' <= length s /\
+             exists c, rd s i' = Ok c /\ pre c = false.
+Proof.
+  intros P0. induction fuel as [|f IH]; intros s i Hi Hf; [lia|].
+  cbn [skip_while]. destruct (rd_ok s i) as (c & Hc & Hn); [lia|]. rewrite Hc. cbn [bind].
+  destruct (pre c) eqn:E.
+  - assert (c <> 0%N) by (intro; subst; congruence). specialize (Hn H).
+    destruct (IH s (S i)) as (i' & E' & H1 & H2 & H3); [lia..|]. exists i'. repeat split; try assumption; lia.
+  - exists i. repeat split; try lia. exists c. auto.
+Qed.
+
+Lemma copy_until_spec stop : forall fuel s i w, i <= length s -> length s < i + wroom w -> length s < i + fuel ->
+  exists i' w', copy_until fuel stop s i w = Ok (i', w') /\ adv s i w i' w' /\
+                exists c, rd s i' = Ok c /\ ((c =? 0)%N || stop c = true).
+Proof.
+  induction fuel as [|f IH]; intros s i w Hi Hw Hf; [lia|].
+  cbn [copy_until]. destruct (rd_ok s i) as (c & Hc & Hn); [lia|]. rewrite Hc. cbn [bind].
+  destruct ((c =? 0)%N || stop c) eqn:E.
+  - exists i, w. split; [reflexivity|]. split; [apply adv_refl; lia|]. exists c. auto.
+  - assert (c <> 0%N) as Hc0 by lia. specialize (Hn Hc0).
+    destruct (esc_spec s i w) as (i1 & w1 & E1 & L1 & A1); [lia..|]. rewrite E1. cbn [bind fst snd].
+    destruct (copy1_spec s i1 w1) as (w2 & E2 & R2 & C2); [unfold adv in A1; lia..|]. rewrite E2. cbn [bind fst snd].
+    destruct (IH s (S i1) w2) as (i3 & w3 & E3 & A3 & X3); [unfold adv in A1; lia..|].
+    exists i3, w3. split; [assumption|]. split; [|assumption]. unfold adv in *. lia.
+Qed.
+
+(* ---------------------------------------------------------------------------------------- *)
+(* ex_loc                                                                                    *)
+
+Lemma loc_main_spec : forall fuel s i w, i <= length s -> length s < i + wroom w -> length s < i + fuel ->
+  exists i' w', loc_main fuel s i w = Ok (i', w') /\ adv s i w i' w'.
+Proof.
+  induction fuel as [|f IH]; intros s i w Hi Hw Hf; [lia|].
+  cbn [loc_main]. destruct (rd_ok s i) as (c & Hc & Hn); [lia|]. rewrite Hc. cbn [bind].
+  destruct ((c =? 0)%N || negb (mem c exloc_set)) eqn:E.
+  { exists i, w. split; [reflexivity|]. apply adv_refl; lia. }
+  assert (c <> 0%N) as Hc0 by lia. specialize (Hn Hc0).
+  (* the quote *)
+  assert (exists i1 w1, (if (c =? 39)%N then copy1 s i w else Ok (i, w)) = Ok (i1, w1) /\ adv s i w i1 w1 /\
+                        (i1 = S i \/ i1 = i)) as (i1 & w1 & E1 & A1 & P1).
+  { destruct (c =? 39)%N.
+    - destruct (copy1_spec s i w) as (w1 & E1 & R1 & C1); [lia..|]. exists (S i), w1. rewrite E1.
+      split; [reflexivity|]. split; [unfold adv; lia|]. left; reflexivity.
+    - exists i, w. split; [reflexivity|]. split; [apply adv_refl; lia|]. right; reflexivity. }
+  rewrite E1. cbn [bind fst snd].
+  destruct (rd_ok s i1) as (c2 & Hc2 & Hn2); [unfold adv in A1; lia|]. rewrite Hc2. cbn [bind].
+  assert (i1 = i -> c2 = c) as Q2 by (intros ->; congruence).
+  (* the search pattern *)
+  assert (exists i2 w2, (if (c2 =? 47)%N || (c2 =? 63)%N
+                         then (do iw <- copy1 s i1 w1; copy_until (S (length s)) (N.eqb c2) s (fst iw) (snd iw))
+                         else Ok (i1, w1)) = Ok (i2, w2) /\ adv s i1 w1 i2 w2 /\ (i1 < i2 \/ i2 = i1))
+    as (i2 & w2 & E2 & A2 & P2).
+  { destruct ((c2 =? 47)%N || (c2 =? 63)%N) eqn:E2.
+    - assert (c2 <> 0%N) as Hc20 by lia. specialize (Hn2 Hc20).
+      destruct (copy1_spec s i1 w1) as (w' & E' & R' & C'); [unfold adv in A1; lia..|]. rewrite E'. cbn [bind fst snd].
+      destruct (copy_until_spec (N.eqb c2) (S (length s)) s (S i1) w') as (i2 & w2 & E3 & A3 & _); [unfold adv in A1; lia..|].
+      exists i2, w2. split; [assumption|]. unfold adv in *. split; lia.
+    - exists i1, w1. split; [reflexivity|]. split; [apply adv_refl; unfold adv in A1; lia|]. right; reflexivity. }
+  rewrite E2. cbn [bind fst snd].
+  destruct (rd_ok s i2) as (c3 & Hc3 & Hn3); [unfold adv in A2; lia|]. rewrite Hc3. cbn [bind].
+  assert (i2 = i -> c3 = c) as Q3 by (intros ->; congruence).
+  destruct (N.eqb_spec c3 0) as [Z3|Z3]; cbn [bind fst snd].
+  - assert (i < i2) by (destruct (Nat.eq_dec i2 i) as [e|e]; [specialize (Q3 e); congruence|unfold adv in *; lia]).
+    destruct (IH s i2 w2) as (i' & w' & E' & A'); [unfold adv in *; lia..|].
+    exists i', w'. split; [assumption|]. eapply adv_trans; [exact A1|]. eapply adv_trans; eassumption.
+  - specialize (Hn3 Z3).
+    destruct (copy1_spec s i2 w2) as (w3 & E3 & R3 & C3); [unfold adv in *; lia..|]. rewrite E3. cbn [bind fst snd].
+    destruct (IH s (S i2) w3) as (i' & w' & E' & A'); [unfold adv in *; lia..|].
+    exists i', w'. split; [assumption|]. unfold adv in *. lia.
+Qed.
+
+Lemma is_colon_blank_0 : is_colon_blank 0%N = false. Proof. reflexivity. Qed.
+Lemma is_blank_0 : is_blank 0%N = false. Proof. reflexivity. Qed.
+
+(* ex_loc: consumed i' - i bytes, wrote at most that many plus the terminator *)
+Lemma ex_loc_spec s i w : i <= length s -> length s < i + wroom w ->
+  exists i' w', ex_loc s i w = Ok (i', w') /\ i <= i' /\ i' <= length s /\
+                wlen w' <= wlen w + (i' - i) + 1 /\ wcap w' = wcap w.
+Proof.
+  intros Hi Hw. unfold ex_loc.
+  destruct (skip_while_spec is_colon_blank is_colon_blank_0 (S (length s)) s i) as (i1 & E1 & L1 & L1' & _); [lia..|].
+  rewrite E1. cbn [bind].
+  destruct (loc_main_spec (S (length s)) s i1 w) as (i2 & w2 & E2 & A2); [lia..|]. rewrite E2. cbn [bind fst snd].
+  destruct (wr_ok w2 0%N) as (w3 & E3 & R3 & C3 & N3); [unfold adv in A2; lia|]. rewrite E3. cbn [bind].
+  exists i2, w3. split; [reflexivity|]. unfold adv, wcap in *. lia.
+Qed.
+
+(* ---------------------------------------------------------------------------------------- *)
+(* ex_cmd                                                                                    *)
+
+Lemma cmd_loop_spec : forall fuel s i w n, i <= length s -> length s < i + wroom w -> length s < i + fuel -> n <= 16 ->
+  exists i' w', cmd_loop fuel s i w n = Ok (i', w') /\ adv s i w i' w' /\ wlen w' + n <= wlen w + 16.
+Proof.
+  induction fuel as [|f IH]; intros s i w n Hi Hw Hf Hn16; [lia|].
+  cbn [cmd_loop]. destruct (rd_ok s i) as (c & Hc & Hn); [lia|]. rewrite Hc. cbn [bind].
+  destruct (c_isalpha c && (n <? 16)) eqn:E.
+  - assert (c <> 0%N) as Hc0 by (unfold c_isalpha in E; lia). specialize (Hn Hc0).
+    destruct (wr_ok w c) as (w1 & E1 & R1 & C1 & N1); [lia|]. rewrite E1. cbn [bind].
+    destruct ((c =? 107)%N && (S n =? 1)).
+    + exists (S i), w1. split; [reflexivity|]. unfold adv. lia.
+    + destruct (IH s (S i) w1 (S n)) as (i' & w' & E' & A' & B'); [lia..|].
+      exists i', w'. split; [assumption|]. unfold adv in *. lia.
+  - exists i, w. split; [reflexivity|]. split; [apply adv_refl; lia|lia].
+Qed.
+
+Lemma ex_cmd_spec s i w : i <= length s -> length s < i + wroom w ->
+  exists i' w', ex_cmd s i w = Ok (i', w') /\ i <= i' /\ i' <= length s /\
+                wlen w' <= wlen w + (i' - i) + 1 /\ wlen w' <= wlen w + 18 /\ wcap w' = wcap w.
+Proof.
+  intros Hi Hw. unfold ex_cmd.
+  destruct (skip_while_spec is_blank is_blank_0 (S (length s)) s i) as (i1 & E1 & L1 & L1' & _); [lia..|].
+  rewrite E1. cbn [bind].
+  destruct (cmd_loop_spec (S (length s)) s i1 w 0) as (i2 & w2 & E2 & A2 & B2); [lia..|]. rewrite E2. cbn [bind fst snd].
+  destruct (rd_ok s i2) as (c & Hc & Hn); [unfold adv in A2; lia|]. rewrite Hc. cbn [bind].
+  assert (exists i3 w3, (if (c =? 33)%N || (c =? 61)%N || (c =? 64)%N then copy1 s i2 w2 else Ok (i2, w2)) = Ok (i3, w3) /\
+                        adv s i2 w2 i3 w3 /\ i3 <= S i2) as (i3 & w3 & E3 & A3 & B3).
+  { destruct ((c =? 33)%N || (c =? 61)%N || (c =? 64)%N) eqn:E.
+    - assert (c <> 0%N) as Hc0 by lia. specialize (Hn Hc0).
+      destruct (copy1_spec s i2 w2) as (w3 & E3 & R3 & C3); [unfold adv in A2; lia..|].
+      exists (S i2), w3. split; [assumption|]. unfold adv in *. lia.
+    - exists i2, w2. split; [reflexivity|]. split; [apply adv_refl; unfold adv in A2; lia|lia]. }
+  rewrite E3. cbn [bind fst snd].
+  destruct (wr_ok w3 0%N) as (w4 & E4 & R4 & C4 & N4); [unfold adv in *; lia|]. rewrite E4. cbn [bind].
+  exists i3, w4. split; [reflexivity|]. unfold adv, wcap in *. lia.
+Qed.
+
+(* ---------------------------------------------------------------------------------------- *)
+(* ex_arg                                                                                    *)
+
+Lemma arg_sub_spec : forall fuel s d i w cnt, i <= length s -> length s < i + wroom w -> length s < i + fuel ->
+  exists i' w', arg_sub fuel s d i w cnt = Ok (i', w') /\ adv s i w i' w'.
+Proof.
+  induction fuel as [|f IH]; intros s d i w cnt Hi Hw Hf; [lia|].
+  cbn [arg_sub]. destruct (rd_ok s i) as (c & Hc & Hn); [lia|]. rewrite Hc. cbn [bind].
+  destruct ((c =? 0)%N || (c =? 10)%N || (cnt =? 0)) eqn:E.
+  - exists i, w. split; [reflexivity|]. apply adv_refl; lia.
+  - assert (c <> 0%N) as Hc0 by lia. specialize (Hn Hc0).
+    destruct (esc_spec s i w) as (i1 & w1 & E1 & L1 & A1); [lia..|]. rewrite E1. cbn [bind fst snd].
+    destruct (copy1_spec s i1 w1) as (w2 & E2 & R2 & C2); [unfold adv in A1; lia..|]. rewrite E2. cbn [bind fst snd].
+    destruct (IH s d (S i1) w2 (if (c =? d)%N then Nat.pred cnt else cnt)) as (i3 & w3 & E3 & A3); [unfold adv in A1; lia..|].
+    exists i3, w3. split; [assumption|]. unfold adv in *. lia.
+Qed.
+
+Lemma not_nl_0 : not_nl 0%N = false. Proof. reflexivity. Qed.
+
+Lemma ex_arg_spec s i w c0 c1 : i <= length s -> length s < i + wroom w ->
+  exists i' w', ex_arg s i w c0 c1 = Ok (i', w') /\ i <= i' /\ i' <= length s /\
+                wlen w' <= wlen w + (i' - i) + 1 /\ wcap w' = wcap w /\
+                (forall c, rd s i = Ok c -> c <> 0%N -> i < i').
+Proof.
+  intros Hi Hw. unfold ex_arg.
+  destruct (skip_while_spec is_blank is_blank_0 (S (length s)) s i) as (i1 & E1 & L1 & L1' & _); [lia..|].
+  rewrite E1. cbn [bind].
+  destruct (rd_ok s i1) as (c & Hc & Hn); [lia|]. rewrite Hc. cbn [bind].
+  match goal with |- context [bind (if ?b then ?x else ?y) _] =>
+    assert (exists i2 w2, (if b then x else y) = Ok (i2, w2) /\ adv s i1 w i2 w2) as (i2 & w2 & E2 & A2) end.
+  { match goal with |- context [if ?b then _ else _] => destruct b end.
+    - destruct (copy_until_spec stop_nl (S (length s)) s i1 w) as (i2 & w2 & E2 & A2 & _); [lia..|]. eauto.
+    - match goal with |- context [if ?b then _ else _] => destruct b end.
+      + match goal with |- context [if ?b then _ else _] => destruct b eqn:Eb end.
+        * assert (c <> 0%N) as Hc0 by lia. specialize (Hn Hc0).
+          destruct (copy1_spec s i1 w) as (w' & E' & R' & C'); [lia..|]. rewrite E'. cbn [bind fst snd].
+          destruct (arg_sub_spec (S (length s)) s c (S i1) w' 2) as (i2 & w2 & E2 & A2); [lia..|].
+          exists i2, w2. split; [assumption|]. unfold adv in *. lia.
+        * exists i1, w. split; [reflexivity|]. apply adv_refl; lia.
+      + exists i1, w. split; [reflexivity|]. apply adv_refl; lia. }
+  rewrite E2. cbn [bind fst snd].
+  destruct (copy_until_spec stop_tail (S (length s)) s i2 w2) as (i3 & w3 & E3 & A3 & (c2' & Hc2' & X2)); [unfold adv in A2; lia..|].
+  rewrite E3. cbn [bind fst snd]. rewrite Hc2'. cbn [bind].
+  assert (exists i4, (if (c2' =? 34)%N then skip_while (S (length s)) not_nl s i3 else Ok i3) = Ok i4 /\ i3 <= i4 /\ i4 <= length s /\
+                     exists c3, rd s i4 = Ok c3 /\ (c3 = 0 \/ c3 = 10 \/ c3 = 124)%N) as (i4 & E4 & L4 & L4' & c3 & Hc3 & X3).
+  { destruct (c2' =? 34)%N eqn:E34.
+    - destruct (skip_while_spec not_nl not_nl_0 (S (length s)) s i3) as (i4 & E4 & L4 & L4' & c3 & Hc3 & X3); [unfold adv in A3; lia..|].
+      exists i4. repeat split; try assumption. exists c3. split; [assumption|]. unfold not_nl in X3. lia.
+    - exists i3. split; [reflexivity|]. split; [lia|]. split; [unfold adv in A3; lia|]. exists c2'. split; [assumption|].
+      unfold stop_tail in X2. lia. }
+  rewrite E4. cbn [bind]. rewrite Hc3. cbn [bind].
+  destruct (wr_ok w3 0%N) as (w5 & E5 & R5 & C5 & N5); [unfold adv in *; lia|]. rewrite E5. cbn [bind].
+  destruct (rd_ok s i4) as (c3' & Hc3' & Hn3); [lia|]. assert (c3' = c3) by congruence. subst c3'.
+  eexists _, w5. split; [reflexivity|].
+  destruct ((c3 =? 10)%N || (c3 =? 124)%N) eqn:E6.
+  - assert (c3 <> 0%N) as H30 by lia. specialize (Hn3 H30). unfold adv, wcap in *. repeat split; try lia.
+  - assert (c3 = 0%N) by lia. subst c3. unfold adv, wcap in *. repeat split; try lia.
+    intros c' Hc' Hc'0. destruct (Nat.eq_dec i4 i) as [e|e]; [subst; congruence|lia].
+Qed.
+
+(* ---------------------------------------------------------------------------------------- *)
+(* ex_txt (the scan of "rs"), one command, the loop of ex_exec                               *)
+
+Lemma txt_rs_spec : forall fuel s i, i <= length s -> length s < i + fuel ->
+  exists j, txt_rs fuel s i = Ok j /\ i <= j /\ j <= length s /\
+            exists b, rd s j = Ok b /\ (b <> 0%N -> j + 3 <= length s).
+Proof.
+  induction fuel as [|f IH]; intros s i Hi Hf; [lia|].
+  cbn [txt_rs]. destruct (rd_ok s i) as (a & Ha & Hn); [lia|]. rewrite Ha. cbn [bind].
+  assert (a <> 0%N -> exists j, txt_rs f s (S i) = Ok j /\ i <= j /\ j <= length s /\
+                                exists b, rd s j = Ok b /\ (b <> 0%N -> j + 3 <= length s)) as REC.
+  { intro Ha0. specialize (Hn Ha0). destruct (IH s (S i)) as (j & E & L1 & L2 & X); [lia..|].
+    exists j. repeat split; try assumption; lia. }
+  destruct (N.eqb_spec a 0) as [Z|Z].
+  { exists i. repeat split; try lia. exists a. split; [assumption|]. intro; congruence. }
+  specialize (Hn Z).
+  destruct (N.eqb_spec a 10) as [T|T]; [|apply REC; assumption].
+  destruct (rd_ok s (S i)) as (b & Hb & Hnb); [lia|]. rewrite Hb. cbn [bind].
+  destruct (N.eqb_spec b 46) as [D|D]; [|apply REC; assumption].
+  assert (b <> 0%N) as Hb0 by lia. specialize (Hnb Hb0).
+  destruct (rd_ok s (S (S i))) as (c & Hc & Hnc); [lia|]. rewrite Hc. cbn [bind].
+  destruct (N.eqb_spec c 10) as [U|U]; [|apply REC; assumption].
+  assert (c <> 0%N) as Hc0 by lia. specialize (Hnc Hc0).
+  exists i. repeat split; try lia. exists a. split; [assumption|]. intros _. lia.
+Qed.
+
+Lemma ex_txt_src_spec s i c0 c1 : i <= length s ->
+  exists j, ex_txt_src s i c0 c1 = Ok j /\ i <= j /\ j <= length s.
+Proof.
+  intro Hi. unfold ex_txt_src. destruct ((c0 =? 114)%N && (c1 =? 115)%N).
+  - destruct (rd_ok s i) as (a & Ha & Hn); [lia|]. rewrite Ha. cbn [bind].
+    destruct (N.eqb_spec a 0); [exists i; repeat split; lia|].
+    destruct (txt_rs_spec (S (length s)) s i) as (j & E & L1 & L2 & b & Hb & X); [lia..|]. rewrite E. cbn [bind].
+    rewrite Hb. cbn [bind]. destruct (N.eqb_spec b 0).
+    + exists j. repeat split; lia.
+    + specialize (X n0). exists (j + 3). repeat split; lia.
+  - exists i. repeat split; lia.
+Qed.
+
+Lemma newbuf_room cap : wroom (newbuf cap) = cap /\ wlen (newbuf cap) = 0 /\ wcap (newbuf cap) = cap.
+Proof. unfold newbuf, wroom, wlen, wcap. cbn. lia. Qed.
+
+Lemma parse_one_spec s i c : length s < excap -> i <= length s -> rd s i = Ok c -> c <> 0%N ->
+  exists p, parse_one s i = Ok p /\ i < p_next p /\ p_next p <= length s.
+Proof.
+  intros Hcap Hi Hc Hc0. unfold parse_one. destruct (newbuf_room excap) as (NR & NL & NC).
+  destruct (ex_loc_spec s i (newbuf excap)) as (i1 & w1 & E1 & L1 & L1' & _); [lia..|]. rewrite E1. cbn [bind fst snd].
+  destruct (ex_cmd_spec s i1 (newbuf excap)) as (i2 & w2 & E2 & L2 & L2' & _); [lia..|]. rewrite E2. cbn [bind fst snd].
+  destruct (ex_arg_spec s i2 (newbuf excap) (ch0 (excmd_of (wstr w2))) (ch1 (excmd_of (wstr w2))))
+    as (i3 & w3 & E3 & L3 & L3' & _ & _ & P3); [lia..|]. rewrite E3. cbn [bind fst snd].
+  destruct (ex_txt_src_spec s i3 (ch0 (excmd_of (wstr w2))) (ch1 (excmd_of (wstr w2)))) as (j & E4 & L4 & L4'); [lia|].
+  rewrite E4. cbn [bind]. eexists. split; [reflexivity|]. cbn [p_next].
+  split; [|assumption].
+  (* progress: ex_arg always moves when the command starts on a byte *)
+  destruct (Nat.eq_dec i2 i) as [e|e].
+  - subst i2. specialize (P3 c Hc Hc0). lia.
+  - lia.
+Qed.
+
+Lemma exec_loop_spec : forall fuel s i, length s < excap -> i <= length s -> length s < i + fuel ->
+  exists l, exec_loop fuel s i = Ok l.
+Proof.
+  induction fuel as [|f IH]; intros s i Hcap Hi Hf; [lia|].
+  cbn [exec_loop]. destruct (rd_ok s i) as (c & Hc & Hn); [lia|]. rewrite Hc. cbn [bind].
+  destruct (N.eqb_spec c 0) as [Z|Z]; [eauto|].
+  destruct (parse_one_spec s i c Hcap Hi Hc Z) as (p & E & L1 & L2). rewrite E. cbn [bind].
+  destruct (IH s (p_next p)) as (l & El); [lia..|]. rewrite El. cbn [bind]. eauto.
+Qed.
+
+Lemma cstrlen_le s : cstrlen s <= length s.
+Proof. induction s as [|b r IH]; cbn [cstrlen length]; [lia|]. destruct (b =? 0)%N; lia. Qed.
+Lemma cstrlen_nonul s : nonul s -> cstrlen s = length s.
+Proof.
+  induction 1 as [|b r Hb _ IH]; cbn [cstrlen length]; [reflexivity|].
+  unfold byte_ok in Hb. destruct (N.eqb_spec b 0); [lia|]. rewrite IH. reflexivity.
+Qed.
+
+Lemma excap_EXLEN : Z.of_nat excap = EXLEN.
+Proof. reflexivity. Qed.
+
+(* the three scanners, each into a fresh EXLEN-byte buffer, from any position of any line shorter
+   than EXLEN, for any command name handed to ex_arg *)
+Lemma ex_parts_fit ln i c0 c1 : (Z.of_nat (length ln) < EXLEN)%Z -> i <= length ln ->
+  (exists i' w, ex_loc ln i (newbuf excap) = Ok (i', w) /\ i <= i' /\ i' <= length ln /\
+                wlen w <= i' - i + 1 /\ (Z.of_nat (wlen w) <= EXLEN)%Z) /\
+  (exists i' w, ex_cmd ln i (newbuf excap) = Ok (i', w) /\ i <= i' /\ i' <= length ln /\
+                wlen w <= i' - i + 1 /\ wlen w <= 18 /\ (Z.of_nat (wlen w) <= EXLEN)%Z) /\
+  (exists i' w, ex_arg ln i (newbuf excap) c0 c1 = Ok (i', w) /\ i <= i' /\ i' <= length ln /\
+                wlen w <= i' - i + 1 /\ (Z.of_nat (wlen w) <= EXLEN)%Z).
+Proof.
+  intros Hlen Hi. rewrite <- excap_EXLEN in *. destruct (newbuf_room excap) as (NR & NL & NC).
+  split; [|split].
+  - destruct (ex_loc_spec ln i (newbuf excap)) as (i' & w & E & L1 & L2 & B & _); [lia..|].
+    exists i', w. repeat split; try assumption; lia.
+  - destruct (ex_cmd_spec ln i (newbuf excap)) as (i' & w & E & L1 & L2 & B & B' & _); [lia..|].
+    exists i', w. repeat split; try assumption; lia.
+  - destruct (ex_arg_spec ln i (newbuf excap) c0 c1) as (i' & w & E & L1 & L2 & B & _); [lia..|].
+    exists i', w. repeat split; try assumption; lia.
+Qed.
+
+(* the whole of ex_exec on a C string: too long and not parsed, or parsed to the end without an
+   out-of-bounds access and without running out of fuel (the loop terminates) *)
+Lemma ex_exec_safe ln : nonul ln ->
+  match ex_exec ln with
+  | TooLong => (EXLEN <= Z.of_nat (length ln))%Z
+  | Parsed r => (Z.of_nat (length ln) < EXLEN)%Z /\ exists l, r = Ok l
+  end.
+Proof.
+  intro Hn. unfold ex_exec. rewrite (cstrlen_nonul ln Hn).
+  destruct (Z.leb_spec EXLEN (Z.of_nat (length ln))); [assumption|].
+  split; [assumption|]. apply exec_loop_spec; rewrite <- excap_EXLEN in *; lia.
+Qed.
+
 Lemma ex_exec_guard ln : (EXLEN <= Z.of_nat (cstrlen ln))%Z -> ex_exec ln = TooLong.
 Proof. intro H. unfold ex_exec. destruct (Z.leb_spec EXLEN (Z.of_nat (cstrlen ln))); [reflexivity|lia]. Qed.
+
+(* ---------------------------------------------------------------------------------------- *)
+(* term.c: ibuf / icmd                                                                       *)
+
+Local Open Scope Z_scope.
+
+Definition tinv (t : tstate) : Prop :=
+  0 <= ibuf_pos t /\ ibuf_pos t <= ibuf_cnt t /\ ibuf_cnt t <= IBUFSZ /\ 0 <= icmd_pos t /\ icmd_pos t <= ICMDSZ.
+(* what the callers guarantee: a push has a non-negative length; read(0, ibuf, 1) returns at most 1 *)
+Definition op_ok (o : top) : Prop :=
+  match o with TPush n => 0 <= n | TRead (Some n) => n <= 1 | _ => True end.
+
+Lemma sizes_pos : 1 <= IBUFSZ /\ 1 <= ICMDSZ.
+Proof. split; now vm_compute. Qed.
+
+Lemma t_step_inv t o : tinv t -> op_ok o -> exists t', t_step t o = Ok t' /\ tinv t'.
+Proof.
+  destruct sizes_pos as [SI SC]. destruct t as [p c k]. unfold tinv, op_ok. cbn [ibuf_pos ibuf_cnt icmd_pos].
+  intros (H1 & H2 & H3 & H4 & H5) Ho. destruct o as [n|[n|]|]; unfold t_step; cbn [ibuf_pos ibuf_cnt icmd_pos].
+  - destruct (Z.ltb_spec (Z.min n (IBUFSZ - c)) 0); [lia|]. destruct (Z.ltb_spec c 0); [lia|].
+    destruct (Z.ltb_spec IBUFSZ (c + Z.min n (IBUFSZ - c))); [lia|]. cbn [orb].
+    eexists. split; [reflexivity|]. cbn [ibuf_pos ibuf_cnt icmd_pos]. lia.
+  - destruct (Z.leb_spec c p).
+    + destruct (Z.leb_spec n 0); [eexists; split; [reflexivity|cbn [ibuf_pos ibuf_cnt icmd_pos]; lia]|].
+      cbn [ibuf_pos ibuf_cnt icmd_pos].
+      destruct (Z.ltb_spec 0 n); [|lia]. destruct (Z.ltb_spec 0 0); [lia|]. destruct (Z.leb_spec IBUFSZ 0); [lia|].
+      cbn [orb andb ibuf_pos ibuf_cnt icmd_pos].
+      destruct (Z.ltb_spec k ICMDSZ).
+      * destruct (Z.ltb_spec k 0); [lia|]. eexists. split; [reflexivity|]. cbn [ibuf_pos ibuf_cnt icmd_pos]. lia.
+      * eexists. split; [reflexivity|]. cbn [ibuf_pos ibuf_cnt icmd_pos]. lia.
+    + cbn [ibuf_pos ibuf_cnt icmd_pos]. destruct (Z.ltb_spec p c); [|lia]. destruct (Z.ltb_spec p 0); [lia|].
+      destruct (Z.leb_spec IBUFSZ p); [lia|]. cbn [orb andb ibuf_pos ibuf_cnt icmd_pos].
+      destruct (Z.ltb_spec k ICMDSZ).
+      * destruct (Z.ltb_spec k 0); [lia|]. eexists. split; [reflexivity|]. cbn [ibuf_pos ibuf_cnt icmd_pos]. lia.
+      * eexists. split; [reflexivity|]. cbn [ibuf_pos ibuf_cnt icmd_pos]. lia.
+  - destruct (Z.leb_spec c p).
+    + eexists. split; [reflexivity|]. cbn [ibuf_pos ibuf_cnt icmd_pos]. lia.
+    + cbn [ibuf_pos ibuf_cnt icmd_pos]. destruct (Z.ltb_spec p c); [|lia]. destruct (Z.ltb_spec p 0); [lia|].
+      destruct (Z.leb_spec IBUFSZ p); [lia|]. cbn [orb andb ibuf_pos ibuf_cnt icmd_pos].
+      destruct (Z.ltb_spec k ICMDSZ).
+      * destruct (Z.ltb_spec k 0); [lia|]. eexists. split; [reflexivity|]. cbn [ibuf_pos ibuf_cnt icmd_pos]. lia.
+      * eexists. split; [reflexivity|]. cbn [ibuf_pos ibuf_cnt icmd_pos]. lia.
+  - eexists. split; [reflexivity|]. cbn [ibuf_pos ibuf_cnt icmd_pos]. lia.
+Qed.
+
+Lemma t_run_inv : forall ops t, tinv t -> Forall op_ok ops -> exists t', t_run t ops = Ok t' /\ tinv t'.
+Proof.
+  induction ops as [|o r IH]; intros t Ht Ho; cbn [t_run]; [eauto|].
+  inversion Ho as [|? ? Ho1 Ho2]; subst.
+  destruct (t_step_inv t o Ht Ho1) as (t1 & E1 & I1). rewrite E1. cbn [bind]. apply IH; assumption.
+Qed.
+
+Lemma t_init_inv : tinv t_init.
+Proof. destruct sizes_pos. unfold tinv, t_init. cbn. lia. Qed.
+
+(* for every sequence of pushes, reads and term_cmd calls from the initial state: no store outside
+   ibuf[IBUFSZ] / icmd[ICMDSZ], no load outside the filled part of ibuf *)
+Lemma term_bounded ops : Forall op_ok ops ->
+  exists t, t_run t_init ops = Ok t /\ 0 <= ibuf_pos t <= ibuf_cnt t /\ ibuf_cnt t <= IBUFSZ /\ 0 <= icmd_pos t <= ICMDSZ.
+Proof.
+  intro H. destruct (t_run_inv ops t_init t_init_inv H) as (t & E & I). exists t. unfold tinv in I. split; [assumption|lia].
+Qed.
+
+(* the amount a push adds is clipped to the room that is left *)
+Lemma term_push_clipped t n t' : tinv t -> 0 <= n -> t_step t (TPush n) = Ok t' ->
+  ibuf_cnt t' = ibuf_cnt t + Z.min n (IBUFSZ - ibuf_cnt t) /\ ibuf_cnt t' <= IBUFSZ /\ ibuf_pos t' = ibuf_pos t /\ icmd_pos t' = icmd_pos t.
+Proof.
+  destruct t as [p c k]. cbv beta iota zeta delta [tinv t_step ibuf_pos ibuf_cnt icmd_pos]. intros I Hn.
+  destruct (_ || _ || _) eqn:C; [discriminate|]. intro E.
+  assert (t' = mkT p (c + Z.min n (IBUFSZ - c)) k) as -> by congruence.
+  cbv beta iota delta [ibuf_pos ibuf_cnt icmd_pos]. repeat split; lia.
+Qed.
+
+(* ---------------------------------------------------------------------------------------- *)
+(* ex_region                                                                                 *)
+
+Section RegionProps.
+  Variable len : Z.
+  Hypothesis len_nonneg : 0 <= len.
+  Variable lineno : Z -> bytes -> nat -> res (Z * nat).
+
+  (* whatever ex_lineno returns: a region that is not refused lies inside the buffer *)
+  Lemma ex_region_range loc xrow b e x : ex_region len lineno loc xrow = Ok (ROk b e, x) -> 0 <= b /\ b <= e /\ e <= len.
+  Proof.
+    unfold ex_region. destruct (bytes_eqb loc [37%N]).
+    { intro E. inversion E. lia. }
+    destruct (rd loc 0) as [c| | |]; cbn [bind]; try discriminate.
+    destruct (c =? 0)%N.
+    { destruct (Z.ltb_spec xrow 0); [cbn [orb]; intro E; inversion E|]. destruct (Z.ltb_spec len xrow); cbn [orb]; intro E; inversion E.
+      subst. destruct (Z.eqb_spec x len); lia. }
+    destruct (region_loop lineno (S (length loc)) loc 0 xrow 0 0 0) as [[[[b0 e0]|] x0]| | |]; cbn [bind fst snd]; try discriminate.
+    set (b1 := if (b0 <? 0) && (e0 =? 0) then 0 else b0).
+    destruct (Z.ltb_spec b1 0); cbn [orb]; [discriminate|].
+    destruct (Z.leb_spec len b1); [discriminate|].
+    destruct (Z.ltb_spec e0 b1); cbn [orb]; [discriminate|].
+    destruct (Z.ltb_spec len e0); [discriminate|].
+    intro E. inversion E. subst. lia.
+  Qed.
+
+  (* reads of the address string stay inside it provided ex_lineno leaves the position inside it *)
+  Hypothesis lineno_ok : forall xrow s i, (i <= length s)%nat ->
+    exists n j, lineno xrow s i = Ok (n, j) /\ (i <= j)%nat /\ (j <= length s)%nat.
+
+  Lemma region_loop_spec : forall fuel s i xrow naddr b e, (i <= length s)%nat -> (length s < i + fuel)%nat ->
+    exists r, region_loop lineno fuel s i xrow naddr b e = Ok r.
+  Proof.
+    induction fuel as [|f IH]; intros s i xrow naddr b e Hi Hf; [lia|].
+    cbn [region_loop]. destruct (rd_ok s i) as (c & Hc & Hn); [lia|]. rewrite Hc. cbn [bind].
+    destruct (c =? 0)%N; [eauto|].
+    destruct (lineno_ok xrow s i Hi) as (n & j & E & L1 & L2). rewrite E. cbn [bind fst snd].
+    destruct (n + 1 <? 0); [eauto|].
+    destruct (skip_while_spec (fun c => negb (c =? 0)%N && negb (c =? 59)%N && negb (c =? 44)%N) eq_refl (S (length s)) s j)
+      as (j' & E' & L3 & L4 & c2 & Hc2 & _); [lia..|].
+    rewrite E'. cbn [bind]. rewrite Hc2. cbn [bind].
+    destruct (N.eqb_spec c2 0); [eauto|].
+    destruct (rd_ok s j') as (c2' & Hc2' & Hn2); [lia|]. assert (c2' = c2) by congruence. subst c2'. specialize (Hn2 n0).
+    apply IH; lia.
+  Qed.
+
+  Lemma ex_region_total loc xrow : exists r, ex_region len lineno loc xrow = Ok r.
+  Proof.
+    unfold ex_region. destruct (bytes_eqb loc [37%N]); [eauto|].
+    destruct (rd_ok loc 0) as (c & Hc & _); [lia|]. rewrite Hc. cbn [bind].
+    destruct (c =? 0)%N; [eauto|].
+    destruct (region_loop_spec (S (length loc)) loc 0 xrow 0 0 0) as (r & E); [lia..|]. rewrite E. cbn [bind].
+    destruct (fst r) as [[b e]|]; [|eauto].
+    repeat match goal with |- context [if ?b then _ else _] => destruct b end; eauto.
+  Qed.
+End RegionProps.
+
+(* ex_lineno itself leaves the position inside the address string, provided no mark is stored
+   under the terminator (markidx(0) = -1) and a search reports a position inside the string *)
+Lemma digits_val_spec : forall fuel s i acc, (i <= length s)%nat -> (length s < i + fuel)%nat ->
+  exists v j, digits_val fuel s i acc = Ok (v, j) /\ (i <= j)%nat /\ (j <= length s)%nat.
+Proof.
+  induction fuel as [|f IH]; intros s i acc Hi Hf; [lia|].
+  cbn [digits_val]. destruct (rd_ok s i) as (c & Hc & Hn); [lia|]. rewrite Hc. cbn [bind].
+  destruct (c_isdigit c) eqn:E.
+  - assert (c <> 0%N) as Hc0 by (unfold c_isdigit in E; lia). specialize (Hn Hc0).
+    destruct (IH s (S i) (acc * 10 + (Z.of_N c - 48))) as (v & j & E' & L1 & L2); [lia..|].
+    exists v, j. repeat split; try assumption; lia.
+  - exists acc, i. repeat split; lia.
+Qed.
+
+Lemma offsets_spec : forall fuel s i n, (i <= length s)%nat -> (length s < i + fuel)%nat ->
+  exists v j, offsets fuel s i n = Ok (v, j) /\ (i <= j)%nat /\ (j <= length s)%nat.
+Proof.
+  induction fuel as [|f IH]; intros s i n Hi Hf; [lia|].
+  cbn [offsets]. destruct (rd_ok s i) as (c & Hc & Hn); [lia|]. rewrite Hc. cbn [bind].
+  destruct ((c =? 45)%N || (c =? 43)%N) eqn:E.
+  - assert (c <> 0%N) as Hc0 by lia. specialize (Hn Hc0).
+    destruct (digits_val_spec (S (length s)) s (S i) 0) as (v & j & E' & L1 & L2); [lia..|]. rewrite E'. cbn [bind fst snd].
+    destruct (IH s j (if (c =? 45)%N then n - v else n + v)) as (v2 & j2 & E2 & L3 & L4); [lia..|].
+    exists v2, j2. repeat split; try assumption; lia.
+  - exists n, i. repeat split; lia.
+Qed.
+
+Lemma ex_lineno_ok len mark search : mark 0%N = None ->
+  (forall xrow s i, (i < length s)%nat -> (i <= snd (search xrow s i))%nat /\ (snd (search xrow s i) <= length s)%nat) ->
+  forall xrow s i, (i <= length s)%nat ->
+  exists n j, ex_lineno len mark search xrow s i = Ok (n, j) /\ (i <= j)%nat /\ (j <= length s)%nat.
+Proof.
+  intros M0 SR xrow s i Hi. unfold ex_lineno.
+  destruct (rd_ok s i) as (c & Hc & Hn); [lia|]. rewrite Hc. cbn [bind].
+  assert (forall n j, (i <= j)%nat -> (j <= length s)%nat ->
+            exists n' j', offsets (S (length s)) s j n = Ok (n', j') /\ (i <= j')%nat /\ (j' <= length s)%nat) as OFF.
+  { intros n j L1 L2. destruct (offsets_spec (S (length s)) s j n) as (v & j' & E & L3 & L4); [lia..|].
+    exists v, j'. repeat split; try assumption; lia. }
+  assert (exists n j, Ok (A := Z * nat) (-2, i) = Ok (n, j) /\ (i <= j)%nat /\ (j <= length s)%nat) as FAILS
+    by (exists (-2), i; repeat split; lia).
+  destruct (N.eqb_spec c 46). { cbn [bind]. assert (c <> 0%N) as Hc0 by lia. specialize (Hn Hc0). apply OFF; lia. }
+  destruct (N.eqb_spec c 36). { cbn [bind]. assert (c <> 0%N) as Hc0 by lia. specialize (Hn Hc0). apply OFF; lia. }
+  destruct (N.eqb_spec c 39).
+  { assert (c <> 0%N) as Hc0 by lia. specialize (Hn Hc0).
+    destruct (rd_ok s (S i)) as (m & Hm & Hnm); [lia|]. rewrite Hm. cbn [bind].
+    destruct (mark m) as [v|] eqn:Em; cbn [bind]; [|exact FAILS].
+    assert (m <> 0%N) as Hm0 by (intro; subst; congruence). specialize (Hnm Hm0). apply OFF; lia. }
+  destruct ((c =? 47)%N || (c =? 63)%N) eqn:E.
+  { assert (c <> 0%N) as Hc0 by lia. specialize (Hn Hc0). destruct (SR xrow s i Hn) as [S1 S2].
+    destruct (search xrow s i) as [[v|] j]; cbn [bind snd] in *; [|exact FAILS].
+    destruct (v <? 0); cbn [bind]; [exact FAILS|]. apply OFF; lia. }
+  destruct (c_isdigit c) eqn:D.
+  { destruct (digits_val_spec (S (length s)) s i 0) as (v & j & E' & L1 & L2); [lia..|]. rewrite E'. cbn [bind fst snd].
+    apply OFF; lia. }
+  cbn [bind]. apply OFF; lia.
+Qed.
+
+(* ---------------------------------------------------------------------------------------- *)
+(* cutword / ec_set (tok[EXLEN], opt[EXLEN]) and ex_plus (pls[EXLEN])                         *)
+
+Local Close Scope Z_scope.
+
+Lemma c_isspace_0 : c_isspace 0%N = false. Proof. reflexivity. Qed.
+
+Lemma cut_copy_spec : forall fuel s i w, i <= length s -> length s < i + wroom w -> length s < i + fuel ->
+  exists i' w', cut_copy fuel s i w = Ok (i', w') /\ adv s i w i' w'.
+Proof.
+  induction fuel as [|f IH]; intros s i w Hi Hw Hf; [lia|].
+  cbn [cut_copy]. destruct (rd_ok s i) as (c & Hc & Hn); [lia|]. rewrite Hc. cbn [bind].
+  destruct ((c =? 0)%N || c_isspace c) eqn:E.
+  - exists i, w. split; [reflexivity|]. apply adv_refl; lia.
+  - assert (c <> 0%N) as Hc0 by lia. specialize (Hn Hc0).
+    destruct (copy1_spec s i w) as (w1 & E1 & R1 & C1); [lia..|]. rewrite E1. cbn [bind fst snd].
+    destruct (IH s (S i) w1) as (i' & w' & E' & A'); [lia..|].
+    exists i', w'. split; [assumption|]. unfold adv in *. lia.
+Qed.
+
+Lemma cutword_spec s i w : i <= length s -> length s < i + wroom w ->
+  exists i' w', cutword s i w = Ok (i', w') /\ i <= i' /\ i' <= length s /\
+                wlen w' <= wlen w + (i' - i) + 1 /\ wcap w' = wcap w.
+Proof.
+  intros Hi Hw. unfold cutword.
+  destruct (skip_while_spec c_isspace c_isspace_0 (S (length s)) s i) as (i1 & E1 & L1 & L1' & _); [lia..|]. rewrite E1. cbn [bind].
+  destruct (cut_copy_spec (S (length s)) s i1 w) as (i2 & w2 & E2 & A2); [lia..|]. rewrite E2. cbn [bind fst snd].
+  destruct (skip_while_spec c_isspace c_isspace_0 (S (length s)) s i2) as (i3 & E3 & L3 & L3' & _); [unfold adv in A2; lia..|].
+  rewrite E3. cbn [bind].
+  destruct (wr_ok w2 0%N) as (w3 & E4 & R4 & C4 & N4); [unfold adv in A2; lia|]. rewrite E4. cbn [bind].
+  exists i3, w3. split; [reflexivity|]. unfold adv, wcap in *. lia.
+Qed.
+
+Lemma wstr_length w : length (wstr w) = Nat.pred (wlen w).
+Proof. destruct w as [[|b l] r]; unfold wstr, wlen; cbn [fst length]; [reflexivity|]. rewrite rev_length. reflexivity. Qed.
+
+Lemma strcpy_from_spec : forall fuel s i w, i <= length s -> length s < i + wroom w -> length s < i + fuel ->
+  exists w', strcpy_from fuel s i w = Ok w'.
+Proof.
+  induction fuel as [|f IH]; intros s i w Hi Hw Hf; [lia|].
+  cbn [strcpy_from]. destruct (rd_ok s i) as (c & Hc & Hn); [lia|]. rewrite Hc. cbn [bind].
+  destruct (wr_ok w c) as (w1 & E1 & R1 & _); [lia|]. rewrite E1. cbn [bind].
+  destruct (N.eqb_spec c 0); [eauto|]. specialize (Hn n). apply IH; lia.
+Qed.
+
+Lemma index_of_lt c : forall s k, index_of c s = Some k -> k < length s.
+Proof.
+  induction s as [|b r IH]; intros k; cbn [index_of length]; [discriminate|].
+  destruct (b =? c)%N; [intro E; inversion E; lia|].
+  destruct (index_of c r) as [k'|]; cbn [option_map]; [|discriminate]. intro E. inversion E. specialize (IH k' eq_refl). lia.
+Qed.
+
+Lemma nthb_nonzero s k : nthb s k <> 0%N -> k < length s.
+Proof.
+  unfold nthb. intro H. destruct (Nat.lt_ge_cases k (length s)); [assumption|]. rewrite nth_overflow in H by assumption. congruence.
+Qed.
+
+(* ec_set: the word cut from an argument shorter than EXLEN fits tok[EXLEN], and each of the three
+   strcpy calls fits opt[EXLEN] *)
+Lemma ec_set_bufs_spec arg : length arg < excap -> exists r, ec_set_bufs arg = Ok r.
+Proof.
+  intro Hcap. unfold ec_set_bufs. destruct (newbuf_room excap) as (NR & NL & NC).
+  destruct (rd_ok arg 0) as (c & Hc & _); [lia|]. rewrite Hc. cbn [bind].
+  destruct (c =? 0)%N; [eauto|].
+  destruct (cutword_spec arg 0 (newbuf excap)) as (i' & w' & E & L1 & L2 & B & _); [lia..|]. rewrite E. cbn [bind fst snd].
+  pose proof (wstr_length w') as TL. set (tok := wstr w') in *.
+  assert (length tok < excap) as Htok by lia.
+  destruct ((nthb tok 0 =? 110)%N && (nthb tok 1 =? 111)%N) eqn:NO.
+  - assert (1 < length tok) by (apply nthb_nonzero; lia).
+    destruct (strcpy_from_spec (S (length tok)) tok 2 (newbuf excap)) as (o & Eo); [lia..|]. rewrite Eo. cbn [bind]. eauto.
+  - destruct (index_of 61%N tok) as [k|] eqn:IX.
+    + pose proof (index_of_lt _ _ _ IX). pose proof (firstn_length k tok) as FL.
+      destruct (strcpy_from_spec (S k) (firstn k tok) 0 (newbuf excap)) as (o & Eo); [lia..|]. rewrite Eo. cbn [bind]. eauto.
+    + destruct (strcpy_from_spec (S (length tok)) tok 0 (newbuf excap)) as (o & Eo); [lia..|]. rewrite Eo. cbn [bind]. eauto.
+Qed.
+
+Lemma plus_loop_spec : forall fuel s i w, i <= length s -> length s < i + wroom w -> length s < i + fuel ->
+  exists i' w', plus_loop fuel s i w = Ok (i', w') /\ adv s i w i' w'.
+Proof.
+  induction fuel as [|f IH]; intros s i w Hi Hw Hf; [lia|].
+  cbn [plus_loop]. destruct (rd_ok s i) as (c & Hc & Hn); [lia|]. rewrite Hc. cbn [bind].
+  destruct ((c =? 0)%N || (c =? 32)%N) eqn:E.
+  - exists i, w. split; [reflexivity|]. apply adv_refl; lia.
+  - assert (c <> 0%N) as Hc0 by lia. specialize (Hn Hc0).
+    assert (exists i1, (if (c =? 92)%N then (do b <- rd s (S i); Ok (if (b =? 0)%N then i else S i)) else Ok i) = Ok i1 /\
+                       i <= i1 /\ i1 < length s) as (i1 & E1 & L1 & L1').
+    { destruct (c =? 92)%N.
+      - destruct (rd_ok s (S i)) as (b & Hb & Hnb); [lia|]. rewrite Hb. cbn [bind].
+        destruct (N.eqb_spec b 0); [exists i; repeat split; lia|]. specialize (Hnb n). exists (S i). repeat split; lia.
+      - exists i. repeat split; lia. }
+    rewrite E1. cbn [bind].
+    destruct (copy1_spec s i1 w) as (w1 & E2 & R2 & C2); [lia..|]. rewrite E2. cbn [bind fst snd].
+    destruct (IH s (S i1) w1) as (i' & w' & E' & A'); [lia..|].
+    exists i', w'. split; [assumption|]. unfold adv in *. lia.
+Qed.
+
+Lemma ex_plus_spec s i w : i <= length s -> length s < i + wroom w ->
+  exists i' w', ex_plus s i w = Ok (i', w') /\ i <= i' /\ i' <= length s /\ wlen w' <= wlen w + (i' - i) + 1.
+Proof.
+  intros Hi Hw. unfold ex_plus.
+  destruct (skip_while_spec (fun c => (c =? 32)%N) eq_refl (S (length s)) s i) as (i1 & E1 & L1 & L1' & _); [lia..|]. rewrite E1. cbn [bind].
+  destruct (Nat.eqb_spec (wroom w) 0); [lia|].
+  destruct (rd_ok s i1) as (c & Hc & Hn); [lia|]. rewrite Hc. cbn [bind].
+  destruct (negb (c =? 43)%N).
+  { exists i1, w. repeat split; try lia. }
+  destruct (plus_loop_spec (S (length s)) s i1 w) as (i2 & w2 & E2 & A2); [lia..|]. rewrite E2. cbn [bind fst snd].
+  destruct (wr_ok w2 0%N) as (w3 & E3 & R3 & C3 & N3); [unfold adv in A2; lia|]. rewrite E3. cbn [bind].
+  destruct (skip_while_spec is_blank is_blank_0 (S (length s)) s i2) as (i3 & E4 & L4 & L4' & _); [unfold adv in A2; lia..|].
+  rewrite E4. cbn [bind]. exists i3, w3. split; [reflexivity|]. unfold adv, wcap in *. lia.
+Qed.
+
+Lemma term_push_bounded ops : Forall op_ok ops ->
+  exists t, t_run t_init ops = Ok t /\ (0 <= ibuf_pos t)%Z /\ (ibuf_pos t <= ibuf_cnt t)%Z /\ (ibuf_cnt t <= IBUFSZ)%Z.
+Proof. intro H. destruct (term_bounded ops H) as (t & E & B). exists t. split; [assumption|lia]. Qed.
+Lemma icmd_bounded ops : Forall op_ok ops ->
+  exists t, t_run t_init ops = Ok t /\ (0 <= icmd_pos t)%Z /\ (icmd_pos t <= ICMDSZ)%Z.
+Proof. intro H. destruct (term_bounded ops H) as (t & E & B). exists t. split; [assumption|lia]. Qed.
